@@ -136,11 +136,10 @@ def check_string(data: bytes, st, fam: str) -> None:
 
 
 def shards(tier):
-    b = BOUNDS[tier]
     out = [("sigma", "short")]
-    out += [("sigma", i, j) for i in range(len(SIGMA)) for j in range(len(SIGMA))]
+    out += [("sigma", i) for i in range(len(SIGMA))]
     out += [("s12", "short")]
-    out += [("s12", i, j) for i in range(len(SIGMA12)) for j in range(len(SIGMA12))]
+    out += [("s12", i) for i in range(len(SIGMA12))]
     full = SIGMA + SIGMA_X
     out += [("sx", "short")] + [("sx", i) for i in range(len(full))]
     return out
@@ -158,9 +157,9 @@ def run_shard(shard, tier, st):
     b = BOUNDS[tier]
     fam = shard[0]
     if fam == "sigma":
-        alpha, maxlen, plen = SIGMA, b["sigma_len"], 2
+        alpha, maxlen, plen = SIGMA, b["sigma_len"], 1
     elif fam == "s12":
-        alpha, maxlen, plen = SIGMA12, b["sigma12_len"], 2
+        alpha, maxlen, plen = SIGMA12, b["sigma12_len"], 1
     else:
         alpha, maxlen, plen = SIGMA + SIGMA_X, b["sigx_len"], 1
     if shard[1] == "short":
@@ -170,13 +169,9 @@ def run_shard(shard, tier, st):
         st.sample({"family": fam, "string": b"".join(alpha[:plen - 1])})
         return
     prefix = [alpha[i] for i in shard[1:]]
-    first = True
     for data in _strings(alpha, prefix, maxlen):
         check_string(data, st, fam)
-        if first and shard[1:] in ((7, 9), (7,), (0, 2)):
-            pass
-        first = False
-    if shard in (("sigma", 7, 9), ("s12", 0, 2), ("sx", 10)):
+    if shard in (("sigma", 7), ("s12", 2), ("sx", 10)):
         st.sample({"family": fam, "last_string": data, "bufsizes": f"1..{len(data)+1},4096"})
 
 
